@@ -129,6 +129,9 @@ struct Run {
 	quiet_since_start: bool,
 	last_out: Option<f32>,
 	fade_dir: i32,
+	/// index-coded ramp played forwards at a dyadic rate below 1: interpolation must be exact
+	ramp: bool,
+	last_ramp: Option<f32>,
 }
 
 impl Run {
@@ -229,6 +232,7 @@ fn make(tok: &[&str], ids: &Ids) -> Run {
 	} else if let Some(s) = tok[4].strip_prefix("reg=") {
 		data = data.slice(parse_region(s));
 	}
+	let data_slice_none = data.slice.is_none();
 	let (slice_start, n) = match data.slice {
 		Some((a, b)) => (a, b.saturating_sub(a)),
 		None => (0, len),
@@ -304,6 +308,14 @@ fn make(tok: &[&str], ids: &Ids) -> Run {
 		quiet_since_start: true,
 		last_out: None,
 		fade_dir: if fade_in.is_some() { 1 } else { 0 },
+		ramp: neutral
+			&& tok[3] == "idx"
+			&& data_slice_none
+			&& loop_region.is_none()
+			&& !reverse
+			&& start_idx == 0
+			&& matches!(rate_fixed, Some(r) if r == 0.5 || r == 0.25),
+		last_ramp: None,
 		cfg,
 	}
 }
@@ -370,6 +382,8 @@ fn exec(case: &[String], out: &mut Out) {
 							out.oracle_fail("static_command_edge", l);
 						}
 						if s != 6 {
+							// the envelope is only compared within one fade direction
+							r.last_out = None;
 							r.fade_dir = match name {
 								"pause" | "stop" => -1,
 								"resume" if immediate => 1,
@@ -390,6 +404,15 @@ fn exec(case: &[String], out: &mut Out) {
 					}
 					if matches!(s_prev, 2 | 3 | 6) && r.quiet_since_start && pos != p_prev {
 						out.oracle_fail("static_position_moved_while_not_advancing", l);
+					}
+				}
+				// --- C04: the reported position names the frame about to be heard (window slot 1) ---
+				if r.plain && r.suspend == 0 && s_before == 0 {
+					if let Some(i) = r.expect {
+						tick(1);
+						if r.handle.position() != i as f64 / r.cfg.sr as f64 {
+							out.oracle_fail("static_reported_position", l);
+						}
 					}
 				}
 				r.last_start_pos = Some((s_after, pos));
@@ -597,6 +620,41 @@ fn exec(case: &[String], out: &mut Out) {
 						}
 					}
 				}
+				// Stopped only after the window has drained: not while the last frame written is a source frame
+				if r.plain && rendering && r.suspend == 0 && s_after == 6 {
+					if let Some(f) = buf.last() {
+						if f.left != 0.0 {
+							out.oracle_fail("static_stopped_before_end", l);
+						}
+					}
+				}
+				// --- C04: a ramp is interpolated exactly (Hermite is exact for polynomials of degree <= 2) ---
+				if r.ramp && len > 0 && r.cfg.sr as f64 * r.cfg.rate.unwrap() * dt != r.cfg.rate.unwrap() {
+					r.ramp = false;
+				}
+				if r.ramp && rendering && len > 0 {
+					let rate = r.cfg.rate.unwrap() as f32;
+					for f in &buf {
+						let v = f.left;
+						if v > (r.cfg.n as f32) - 2.0 {
+							// the tail (interpolation against the silence after the end) is not a ramp
+							r.ramp = false;
+							break;
+						}
+						let interior = v >= 2.0;
+						if let Some(prev) = r.last_ramp {
+							if interior && prev >= 2.0 && prev <= (r.cfg.n as f32) - 2.0 {
+								tick(0);
+								if v - prev != rate || f.right != v {
+									out.oracle_fail("static_ramp_interpolation", l);
+									r.ramp = false;
+									break;
+								}
+							}
+						}
+						r.last_ramp = Some(v);
+					}
+				}
 				// --- C03: finite non-looping sounds with a non-zero rate reach Stopped ---
 				if !r.loop_ever
 					&& !r.any_command
@@ -645,6 +703,7 @@ fn exec(case: &[String], out: &mut Out) {
 				}
 				out.put(show(r));
 				r.any_command = true;
+				r.ramp = false;
 				if !matches!(tok[0], "seekto" | "seekby" | "loop") {
 					r.plain = false;
 				}
@@ -922,14 +981,23 @@ fn gen_dt(rng: &mut Rng, sr: u64) -> f64 {
 }
 
 fn gen_case(rng: &mut Rng, out: &mut Vec<String>, stats: &mut Stats) {
-	let sh = gen_shape(rng);
+	let mut sh = gen_shape(rng);
+	let kind = rng.below(11);
+	// kind 10: an index ramp played forwards at rate 1/2 or 1/4 (exact interpolation)
+	let ramp = kind == 10;
+	if ramp {
+		sh.len = 8 + rng.below(30);
+		sh.slice = None;
+		sh.n = sh.len;
+	}
 	let (sr, n) = (sh.sr, sh.n);
-	let kind = rng.below(10);
 	// kinds: 0-3 plain rate-±1 index walks (C04), 4-5 DC envelope (C03), 6-9 anything
 	let plain = kind <= 3;
 	let dc = kind == 4 || kind == 5;
-	stats.hit(if plain { "case_plain" } else if dc { "case_dc" } else { "case_free" });
-	let coding = if dc {
+	stats.hit(if plain { "case_plain" } else if dc { "case_dc" } else if ramp { "case_ramp" } else { "case_free" });
+	let coding = if ramp {
+		"idx".to_string()
+	} else if dc {
 		format!("dc={}", o32(1.0))
 	} else if plain {
 		rng.pick(&["idx", "idx", "lr"]).to_string()
@@ -941,12 +1009,12 @@ fn gen_case(rng: &mut Rng, out: &mut Vec<String>, stats: &mut Stats) {
 			_ => format!("rnd={}", rng.below(1000)),
 		}
 	};
-	let dt = if plain || dc { 1.0 / sr as f64 } else { gen_dt(rng, sr) };
+	let dt = if plain || dc || ramp { 1.0 / sr as f64 } else { gen_dt(rng, sr) };
 	let chunk_secs = dt * 8.0;
-	let reverse = n > 0 && rng.chance(3, 10);
+	let reverse = n > 0 && !ramp && rng.chance(3, 10);
 	let start = if reverse {
 		rng.below(n)
-	} else if dc {
+	} else if dc || ramp {
 		0
 	} else {
 		match rng.below(8) {
@@ -962,21 +1030,23 @@ fn gen_case(rng: &mut Rng, out: &mut Vec<String>, stats: &mut Stats) {
 		} else {
 			"none".to_string()
 		}
-	} else if rng.chance(1, 2) {
+	} else if !ramp && rng.chance(1, 2) {
 		gen_valid_loop(rng, n, sr)
 	} else {
 		"none".to_string()
 	};
-	let rate = if dc {
+	let rate = if ramp {
+		format!("fix:{}", o64(rng.pick(&[0.5, 0.25])))
+	} else if dc {
 		format!("fix:{}", o64(1.0))
 	} else if plain {
 		format!("fix:{}", o64(rng.pick(&[1.0, 1.0, 1.0, -1.0])))
 	} else {
 		gen_rate_value(rng)
 	};
-	let neutral = plain || dc || rng.chance(1, 2);
-	let start_time = if plain { "imm".to_string() } else if dc && rng.chance(4, 5) { "imm".to_string() } else { gen_start_time(rng, chunk_secs) };
-	let fade_in = if plain || rng.chance(3, 4) { "none".to_string() } else { gen_life_tween(rng, chunk_secs) };
+	let neutral = plain || dc || ramp || rng.chance(1, 2);
+	let start_time = if plain || ramp { "imm".to_string() } else if dc && rng.chance(4, 5) { "imm".to_string() } else { gen_start_time(rng, chunk_secs) };
+	let fade_in = if plain || ramp || rng.chance(3, 4) { "none".to_string() } else { gen_life_tween(rng, chunk_secs) };
 	if rng.chance(1, 3) {
 		out.push(gen_info_clocks(rng));
 	}
@@ -1005,14 +1075,14 @@ fn gen_case(rng: &mut Rng, out: &mut Vec<String>, stats: &mut Stats) {
 	} else {
 		rng.range(3, 16)
 	};
-	let cmd_rate = if plain { rng.pick(&[0u64, 0, 8]) } else { rng.pick(&[0u64, 3, 3, 2]) };
+	let cmd_rate = if ramp { 0 } else if plain { rng.pick(&[0u64, 0, 8, 5]) } else { rng.pick(&[0u64, 3, 3, 2]) };
 	for _ in 0..callbacks {
 		// commands between callbacks
 		if cmd_rate > 0 {
 			while rng.chance(1, cmd_rate) {
 				let line = if plain {
 					match rng.below(3) {
-						0 => format!("seekto {}", o64(rng.below(n + 2) as f64 / sr as f64)),
+						0 => format!("seekto {}", o64((rng.below(n + 2) as f64 + rng.pick(&[0.0, 0.0, 0.625, 0.25])) / sr as f64)),
 						1 => format!("seekby {}", o64(rng.range(-4, 4) as f64 / sr as f64)),
 						_ => format!("loop {}", if rng.chance(1, 4) { "none".to_string() } else { gen_valid_loop(rng, n, sr) }),
 					}
